@@ -1,5 +1,5 @@
 SPECIFICATION TSpec
 CONSTANT ScannerLimit = FALSE
-INVARIANTS C14Run C15Fields C16Cover
+INVARIANTS C14Run C14Bulk C15Fields C16Cover
 POSTCONDITION Accepted
 CHECK_DEADLOCK FALSE
